@@ -1377,15 +1377,6 @@ func (intp *Interpreter) bindProc(proc Procedure, depth int) error {
 	}
 	for i, elem := range proc {
 		switch obj := elem.(type) {
-		case Name:
-			val, err := intp.load(obj)
-			if err != nil {
-				continue
-			}
-			_, ok := val.(builtin)
-			if ok {
-				proc[i] = val
-			}
 		case Operator:
 			val, err := intp.load(obj)
 			if err != nil {
